@@ -59,13 +59,21 @@ def run(ck, tier):
         tr2 = os.path.join(work, "random.ndjson")
         n = 3000 if thorough else 300
         p = vlib.harness(["morass", "random", "-n", n, "-big", "-seed", ck.seed, "-out", tr2])
-        vlib.log("  [random] %s" % p.stdout.strip())
+        vlib.log("  [random] %s" % p.stdout.strip().splitlines()[-1])
+        st = vlib.take_stall(tr2)
+        if st:
+            ck.violation("the sorter stopped making progress for %d s in the middle of a usage history (no value, no io.EOF, no error): %s"
+                         % (st["seconds"], st["after"]), {"kind": "morass-stall", "after": st["after"], "stacks": st["stacks"][-6000:]})
         v2, segs2 = judge_trace(ck, tr2, "random-histories")
         ck.samples.append({"source": "random history", "events": segs2[0][1][:10]})
         # the same usage histories with the concurrent constructor flag (background writers, buffer pool)
         tr3 = os.path.join(work, "random-conc.ndjson")
         p = vlib.harness(["morass", "random", "-n", n, "-big", "-conc", "-seed", ck.seed + 17, "-out", tr3])
-        vlib.log("  [random, concurrent mode] %s" % p.stdout.strip())
+        vlib.log("  [random, concurrent mode] %s" % p.stdout.strip().splitlines()[-1])
+        st = vlib.take_stall(tr3)
+        if st:
+            ck.violation("the sorter stopped making progress for %d s in the middle of a usage history (no value, no io.EOF, no error): %s"
+                         % (st["seconds"], st["after"]), {"kind": "morass-stall", "after": st["after"], "stacks": st["stacks"][-6000:]})
         v3, segs3 = judge_trace(ck, tr3, "random-histories-concurrent")
         for _, s in segs2 + segs3:
             ops = tuple((e["op"], e.get("v", 0) // KD, e.get("err", "")) for e in s)
